@@ -186,8 +186,149 @@ def check_c39(ctx):
 
 
 # ----------------------------------------------------------------------------- C40
+MAXD = 2147483647
+U = 16384
+
+
+def _iset(xs):
+    return "{" + ",".join(str(x) for x in xs) + "}"
+
+
+def conn_consts(ids, dsizes, wuds, iws, hwrites, steps, noise=None, maxs=2):
+    d = {"IDS": _iset(ids), "MAXS": maxs, "DSIZES": _iset(dsizes), "WUDS": _iset(wuds), "IWS": _iset(iws),
+         "HWRITES": _iset(hwrites), "STEPS": steps}
+    if noise is not None:
+        d["NOISE"] = noise
+    return d
+
+
+def _script(c):
+    return [[s["a"], s["id"], s["x"], s["f"]] for s in c["steps"]]
+
+
+def _conn_harness(ctx, cases, slow=1):
+    for c in cases:
+        c["slow"] = slow
+    res = ctx.harness("spdy", ["conn"], cases=cases, timeout=3000)
+    if any("_fatal" in r for r in res):
+        raise vlib.MachineryError("spdy conn: %s" % [r for r in res if "_fatal" in r][:1])
+    return res
+
+
+def run_conn_cases(ctx, cases, label="", maxs=2):
+    if not cases:
+        raise vlib.MachineryError("no conn scripts generated (%s)" % label)
+    for i, c in enumerate(cases):
+        c["id"] = i + 1
+        c["maxs"] = c.get("maxs", maxs)
+    by_id = {c["id"]: c for c in cases}
+    res = _conn_harness(ctx, cases)
+    results = [r for r in res if "id" in r]
+    crash = _crash_text(res)
+    nrep = 0
+    if crash is not None:
+        # a panic on the server's reader / writer goroutine is not recoverable: the process dies.
+        ids = [int(x.split()[1]) for x in (ctx.last_stderr or "").splitlines() if x.startswith("CASE ")]
+        cul = by_id.get(ids[-1]) if ids else None
+        again = _crash_text(_conn_harness(ctx, [cul])) if cul else None
+        if again is None:
+            raise vlib.MachineryError("spdy conn harness died, not reproducible on the last case: %s"
+                                      % crash["_stderr"][-1500:])
+        nrep += 1
+        ctx.report("crash/" + cul["steps"][-1]["why"], "the process died (unrecovered panic / fatal error) replaying "
+                   "this script: " + again["_stderr"][-1500:], case={"steps": cul["steps"], "maxs": cul["maxs"]},
+                   harness="spdy", cmd="conn")
+        done = {r["id"] for r in results}
+        rest = [c for c in cases if c["id"] not in done and c["id"] != cul["id"]]
+        if rest:
+            more = _conn_harness(ctx, rest)
+            if _crash_text(more) is None:
+                results += [r for r in more if "id" in r]
+    elif len(results) != len(cases):
+        raise vlib.MachineryError("spdy conn: %d results for %d scripts" % (len(results), len(cases)))
+    # a contradiction must reproduce when the script is replayed on its own with tripled timeouts
+    failing = [by_id[r["id"]] for r in results if not r["ok"]]
+    confirmed = {}
+    if failing:
+        if any(r.get("sig") == "machinery" for r in results if not r["ok"]):
+            bad = [r for r in results if r.get("sig") == "machinery"][0]
+            raise vlib.MachineryError("spdy conn: %s" % bad.get("detail"))
+        again = _conn_harness(ctx, failing[:60], slow=3)
+        if _crash_text(again) is not None:
+            raise vlib.MachineryError("spdy conn harness died during confirmation runs")
+        confirmed = {r["id"]: r for r in again if "id" in r and not r["ok"]}
+    drift = {}
+    steps_checked = 0
+    for r in results:
+        c = by_id[r["id"]]
+        steps_checked += r.get("steps", 0)
+        ctx.count(_script(c))
+        if r.get("drift"):
+            drift.setdefault(r["drift"].split("]")[0].split("[")[-1], r["drift"])
+        if not r["ok"]:
+            r2 = confirmed.get(r["id"])
+            if r2 is None:
+                ctx.notes.append("script %d: %s seen once, not reproduced with tripled timeouts (not reported)"
+                                 % (r["id"], r["sig"]))
+                continue
+            nrep += 1
+            k = r2.get("steps", len(c["steps"]))
+            ctx.report(r2["sig"], "%s | wire log: %s" % (r2.get("detail", "")[:1500], (r2.get("log") or [])[-40:]),
+                       case={"steps": c["steps"][:max(k, 1)], "maxs": c["maxs"]}, harness="spdy", cmd="conn")
+    ctx.traces(len(results))
+    ctx.cov["steps_checked_against_impl"] = ctx.cov.get("steps_checked_against_impl", 0) + steps_checked
+    if drift:
+        ctx.drift("action=serve %d step kinds where the real server and the model differ inside Layer P, e.g. %s"
+                  % (len(drift), list(drift.values())[:2]))
+    for c in cases[-2:]:
+        ctx.sample({"script": [dict(a=s["a"], id=s["id"], x=s["x"], f=s["f"], why=s["why"], allowed=s["allowed"],
+                                    model=s["m"]) for s in c["steps"][:10]]})
+    return nrep
+
+
+def gen_conn(ctx, defines, mode="mc", num=0, depth=0, timeout=2400):
+    r = ctx.tlc(SPEC, "GenConn", "Gen_Conn.cfg", mode=mode, sim_num=num, sim_depth=depth,
+                defines=defines, timeout=timeout, count=False)
+    if not r.ok:
+        raise vlib.MachineryError("GenConn failed: %s %s" % (r.error or r.violation, r.out[-600:]))
+    return r.cases
+
+
 def check_c40(ctx):
-    raise vlib.MachineryError("C40 not built yet")
+    q = ctx.tier == "quick"
+    mc = conn_consts([1, 2, 3], [0, U, 5 * U], [U, MAXD], [0, 4 * U], [5 * U], 4 if q else 6)
+    ctx.cov["constants"]["MC_Conn"] = mc
+    ctx.tlc_must_pass(SPEC, "Conn", "MC_Conn.cfg", defines=mc, timeout=3000)
+    cases = []
+    g1 = conn_consts([1, 2, 3], [0, U, 2 * U, 5 * U], [U, MAXD], [0, U, 4 * U], [U, 5 * U], 2 if q else 3, noise=9)
+    ctx.cov["constants"]["Gen_Conn_exhaustive"] = g1
+    ex = gen_conn(ctx, g1)
+    # one stream, every script: reaches negative send windows, blocked writers, SETTINGS changes
+    g1n = conn_consts([1], [U], [U, MAXD], [0, 4 * U], [5 * U], 4 if q else 5, noise=0)
+    ctx.cov["constants"]["Gen_Conn_exhaustive_one_stream"] = g1n
+    ex += gen_conn(ctx, g1n)
+    cases += ex
+    broad = conn_consts([1, 2, 3, 5], [0, U, 2 * U, 5 * U], [0, U, MAXD], [0, U, 4 * U, MAXD], [U, 5 * U], 14, noise=2)
+    flow = conn_consts([1, 3], [U, 3 * U], [U, MAXD], [0, 4 * U], [5 * U], 16, noise=0)
+    ctx.cov["constants"]["Gen_Conn_sim_broad"] = broad
+    ctx.cov["constants"]["Gen_Conn_sim_flow"] = flow
+    nsim = 250 if q else 6000
+    s1 = gen_conn(ctx, broad, mode="sim", num=nsim, depth=18)
+    s2 = gen_conn(ctx, flow, mode="sim", num=nsim, depth=20)
+    cases += s1 + s2
+    ctx.cov["rule"] = ("scripts = every sequence of client frames and handler steps up to %d steps (3 stream ids) resp. %d steps "
+                       "(one stream id) (%d, exhaustive) plus "
+                       "TLC-simulated scripts of up to 16 steps (%d broad, %d flow-control focused); each is replayed in "
+                       "lock step against the real bfe_spdy server on net.Pipe; after every step the wire events and "
+                       "handler observations are compared with the step's Layer-P expectation printed by TLC (outcome in "
+                       "the allowed set, handlers started, WINDOW_UPDATE sums = octets consumed, DATA within the client's "
+                       "windows, silence after RST/FIN, body delivery, bfe_spdy panic counters). distinct = distinct "
+                       "scripts." % (g1["STEPS"], g1n["STEPS"], len(ex), len(s1), len(s2)))
+    ctx.assumptions.append("the client side of the replay is the repository's own Framer (no independent SPDY "
+                           "implementation offline); lock-step replay: handler/serve-loop concurrency is explored at "
+                           "step granularity only; scripts in which two streams compete for the session send window "
+                           "(scheduler's choice) are not generated")
+    run_conn_cases(ctx, cases, "C40")
 
 
 PROPS = {"C39": check_c39, "C40": check_c40}
